@@ -167,3 +167,34 @@ func VH_C02_PowershellVerifyComparesDigest() {
 		vhAssert(!genuine, "genuine-signature-accepted")
 	}
 }
+
+// H02.pe-verify: VerifyPE with integrity checking accepts a signed image only
+// when the image digest recomputed from the file equals the digest the
+// embedded (stubbed) CMS structure vouches for: one changed section byte
+// (symbolic value) is rejected with a digest mismatch, as are a bad CMS
+// signature and a foreign content type.
+func VH_C02_PEVerifyComparesDigest() {
+	// vh:stubbed
+	f := vhPEGap(true, 0, 2, 0, 8)
+	x := f.x
+	dx, err := DigestPE(bytes.NewReader(x), crypto.SHA256, false)
+	vhAssume(err == nil)
+	cms := &vhCms{wrongType: vhBool("foreign-content-type"), sigBad: vhBool("cms-signature-bad"), digest: dx.Imprint}
+	cms.install()
+	y := append([]byte{}, x...)
+	changed := vhBool("section-byte-changed")
+	if changed {
+		p := vhHdrEnd + vhConcretize(vhInt("changed-byte", 0, 1), 2)
+		y[p] = vhU8("new-value")
+		vhAssume(y[p] != x[p])
+	}
+	sigs, err := VerifyPE(bytes.NewReader(y), false)
+	vhReach("decided") // vh:require decided
+	genuine := !changed && !cms.wrongType && !cms.sigBad
+	if err == nil {
+		vhReach("accepted") // vh:require accepted
+		vhAssert(genuine && len(sigs) == 1, "altered-image-or-bad-signature-never-accepted")
+	} else {
+		vhAssert(!genuine, "genuine-signature-accepted")
+	}
+}
